@@ -65,11 +65,22 @@ func c18ExpandBlocks(c *Ctx) {
 			}
 		}
 		// a helper method of the body that makes the block: judged on what it returns
-		if c2, ok := blk.(*ssa.Call); ok && depth < 2 {
+		hcall, hidx := (*ssa.Call)(nil), 0
+		if c2, ok := blk.(*ssa.Call); ok {
+			hcall = c2
+		} else if ex, ok := blk.(*ssa.Extract); ok {
+			if c2, ok := ex.Tuple.(*ssa.Call); ok && c2.Call.StaticCallee() != nb {
+				hcall, hidx = c2, ex.Index
+			}
+		}
+		if c2 := hcall; c2 != nil && depth < 2 {
 			if h := c2.Call.StaticCallee(); h != nil && h != nb && inModule(h) && len(h.Blocks) > 0 && h.Signature.Recv() != nil && namedOf(h.Signature.Recv().Type()) == namedOf(f.Signature.Recv().Type()) && len(c2.Call.Args) > 0 && (c2.Call.Args[0] == ssa.Value(frecv) || isSpillOf(c2.Call.Args[0], frecv)) {
 				for _, hb := range h.Blocks {
-					if r, ok := hb.Instrs[len(hb.Instrs)-1].(*ssa.Return); ok && len(r.Results) == 1 {
-						analyseBlock(h, r.Results[0], hb, r.Pos(), depth+1)
+					if r, ok := hb.Instrs[len(hb.Instrs)-1].(*ssa.Return); ok && len(r.Results) > hidx {
+						if cn, ok := r.Results[hidx].(*ssa.Const); ok && cn.IsNil() {
+							continue // no block made on this path
+						}
+						analyseBlock(h, r.Results[hidx], hb, r.Pos(), depth+1)
 					}
 				}
 				return
@@ -91,7 +102,7 @@ func c18ExpandBlocks(c *Ctx) {
 				if fv == nil || fv.Name() != "Body" || !isNamed(fa.X.Type(), modPath, "Block") {
 					continue
 				}
-				if fa.X == blockObj && (s2.Block() == at || s2.Block().Dominates(at)) {
+				if fa.X == blockObj && (s2.Block() == at || s2.Block().Dominates(at) || coveredUnlessNil(f, blockObj, s2.Block(), at)) {
 					bodyStore = s2
 				}
 			}
@@ -428,4 +439,51 @@ func c18Inherit(c *Ctx) {
 	c.Sites += 2
 	c.Check(copied, "inherit.complete", "ext/dynblock.iteration.MakeChild:copy[Inherited]", fn.Pos(), "parent's inherited iterators copied", "the child iteration does not receive the parent's inherited iterators: iterators of blocks two or more levels up are unknown inside the child")
 	c.Check(self, "inherit.complete", "ext/dynblock.iteration.MakeChild:parent", fn.Pos(), "parent bound under its iterator name", "the child iteration does not inherit its parent iterator")
+}
+
+// coveredUnlessNil: every path from the entry of f to block at passes through block via, except
+// paths that leave a nil test of v on its nil edge (v is nil there: no block was made).
+func coveredUnlessNil(f *ssa.Function, v ssa.Value, via, at *ssa.BasicBlock) bool {
+	if len(f.Blocks) == 0 {
+		return false
+	}
+	seen := map[*ssa.BasicBlock]bool{}
+	var walk func(b *ssa.BasicBlock) bool // true if at is reached
+	walk = func(b *ssa.BasicBlock) bool {
+		if b == via || seen[b] {
+			return false
+		}
+		if b == at {
+			return true
+		}
+		seen[b] = true
+		skip := -1
+		if iff, ok := b.Instrs[len(b.Instrs)-1].(*ssa.If); ok {
+			if bo, ok := iff.Cond.(*ssa.BinOp); ok && (bo.Op == token.NEQ || bo.Op == token.EQL) {
+				var other ssa.Value
+				if bo.X == v {
+					other = bo.Y
+				} else if bo.Y == v {
+					other = bo.X
+				}
+				if cn, ok := other.(*ssa.Const); ok && cn.IsNil() {
+					if bo.Op == token.NEQ {
+						skip = 1
+					} else {
+						skip = 0
+					}
+				}
+			}
+		}
+		for i, su := range b.Succs {
+			if i == skip {
+				continue
+			}
+			if walk(su) {
+				return true
+			}
+		}
+		return false
+	}
+	return !walk(f.Blocks[0])
 }
